@@ -455,3 +455,29 @@ def rule_absent_values(ctx):
                   found=short(uses[0]) if uses else None)
     if n == 0:
         raise AnalysisError("_STIXBase.__init__: `if <value> not in (None, []): kwargs[name] = <value>` not found")
+    # the constructors that accept a property as a NAMED parameter (statement=..., relationship_type=..., sighting_of_ref=...)
+    # hand it on under the same convention: `if p:` drops a legal empty string / 0 / False before the base constructor sees it
+    sbase = prog.cls("stix2.base::_STIXBase")
+    m = 0
+    for f2 in sorted(prog.functions.values(), key=lambda f: f.id):
+        if f2.name != "__init__" or f2.cls is None or sbase not in f2.cls.mro or f2.kwarg is None:
+            continue
+        named = [p_ for p_ in f2.params[1:]]
+        for node in body_walk(f2.node):
+            if not isinstance(node, ast.If):
+                continue
+            stores = [x for x in node.body if isinstance(x, ast.Assign) and isinstance(x.targets[0], ast.Subscript)
+                      and norm(x.targets[0].value) == f2.kwarg and isinstance(x.value, ast.Name) and x.value.id in named]
+            if not stores:
+                continue
+            p_ = stores[0].value.id
+            m += 1
+            cj = node.test.values if isinstance(node.test, ast.BoolOp) and isinstance(node.test.op, ast.And) else [node.test]
+            truthy = [c_ for c_ in cj if isinstance(c_, ast.Name) and c_.id == p_]
+            run.check(not truthy, R, key(f2.module.relpath, f2.qualname, "named-parameter-handed-on:%s" % p_),
+                      "the named parameter `%s` is handed to the base constructor only when it is truthy: a legal empty value "
+                      "('' for a statement) is dropped and the required property then counts as missing" % p_,
+                      file=f2.module.relpath, line=node.lineno, function=f2.qualname, expected="if %s is not None ..." % p_,
+                      found=short(node.test))
+    if m < 8:
+        raise AnalysisError("fewer than 8 named-parameter hand-overs found in constructors (%d)" % m)
